@@ -1525,7 +1525,7 @@ class Model:
         for cpd, stoich in cache.dyn_stoich_by_cpds.items():
             for rxn, derived in stoich.items():
                 stoich_by_cpds[cpd][rxn] = float(
-                    derived.fn(*(args[i] for i in derived.args))
+                    self._calculate_stoichiometry(derived, args)
                 )
         return pd.DataFrame(stoich_by_cpds).T.fillna(0)
 
@@ -1553,7 +1553,7 @@ class Model:
 
         stoich = copy.deepcopy(cache.stoich_by_cpds[variable])
         for rxn, derived in cache.dyn_stoich_by_cpds.get(variable, {}).items():
-            stoich[rxn] = float(derived.fn(*(args[i] for i in derived.args)))
+            stoich[rxn] = float(self._calculate_stoichiometry(derived, args))
         return stoich
 
     def get_raw_stoichiometries_of_variable(
@@ -2359,9 +2359,17 @@ class Model:
                 dxdt[k] += n * dependent[flux]
         for k, sd in cache.dyn_stoich_by_cpds.items():
             for flux, dv in sd.items():
-                n = dv.calculate(dependent)
+                n = self._calculate_stoichiometry(dv, dependent)
                 dxdt[k] += n * dependent[flux]
         return tuple(dxdt[i] for i in cache.var_names)
+
+    def _calculate_stoichiometry(
+        self, derived: Derived, args: Mapping[str, float]
+    ) -> float:
+        """Value of a derived stoichiometry, data sets are not part of the args."""
+        return derived.fn(
+            *(args[i] if i in args else self._data[i] for i in derived.args)
+        )
 
     def _get_right_hand_side(
         self,
@@ -2377,7 +2385,7 @@ class Model:
 
         for k, sd in cache.dyn_stoich_by_cpds.items():
             for flux, dv in sd.items():
-                n = dv.fn(*(args[i] for i in dv.args))
+                n = self._calculate_stoichiometry(dv, args)
                 dxdt[k] += n * args[flux]
         return dxdt
 
